@@ -13,3 +13,8 @@ pub mod c03 {
     use super::*;
     include!("c03.rs");
 }
+pub mod c04 {
+    #[allow(unused_imports)]
+    use super::*;
+    include!("c04.rs");
+}
